@@ -42,13 +42,19 @@ def run(call, n, piddir, tmpdir, stale):
     -> dict(call, n, killed, content class: 0 absent / 1 complete own pid / 2 complete stale pid / -1 empty / -3 other, raw)"""
     os.makedirs(piddir, exist_ok=True)
     os.makedirs(tmpdir, exist_ok=True)
-    path = os.path.join(piddir, "g_%d_%s_%d_%d.pid" % (os.getpid(), call, n, int(stale)))
-    for p in (path,):
+    # stale: False fresh path / True a stale regular file / "link": the path is a symbolic link to a stale pid file
+    # (current/tmp/pids/app.pid -> shared/pids/app.pid) / "dangling": a symbolic link whose target does not exist yet
+    tag = {False: "0", True: "1"}.get(stale, stale)
+    path = os.path.join(piddir, "g_%d_%s_%d_%s.pid" % (os.getpid(), call, n, tag))
+    target = path + ".target"
+    for p in (path, target):
         try:
             os.unlink(p)
         except OSError:
             pass
-    if stale:
+    if stale in ("link", "dangling"):
+        os.symlink(target, path)
+    if stale in (True, "link"):
         with open(path, "w") as f:
             f.write("%d\n" % STALE_PID)
     script = os.path.join(tmpdir, "create_%d.py" % os.getpid())
@@ -64,7 +70,7 @@ def run(call, n, piddir, tmpdir, stale):
             if child.poll() is not None:
                 raise RuntimeError("pid-file child died early: %s" % child.stderr.read()[-300:])
             time.sleep(0.01)
-        trace = os.path.join(tmpdir, "trace_%d_%s_%d_%d" % (os.getpid(), call, n, int(stale)))
+        trace = os.path.join(tmpdir, "trace_%d_%s_%d_%s" % (os.getpid(), call, n, tag))
         st = subprocess.Popen(["strace", "-f", "-p", str(child.pid), "-o", trace, "-e", "trace=" + CALLS,
                                "-e", "inject=%s:signal=KILL:when=%d" % (call, n)],
                               stdout=subprocess.DEVNULL, stderr=subprocess.PIPE)
